@@ -185,7 +185,7 @@ func runModel(lines []string) ([]string, error) {
 	return strings.Split(strings.TrimRight(out.String(), "\n"), "\n"), nil
 }
 
-var callsRe = regexp.MustCompile(`calls=\S*`)
+var callsRe = regexp.MustCompile(`calls=.*? closed=`) // (a call may carry an argument: "SetRevisionCounter 3")
 
 // sameOut compares an observation of the implementation with the model's.  Two requests that
 // overlapped in time are emitted in the order in which they took effect; the state between them
@@ -198,7 +198,7 @@ func sameOut(a, b string) bool {
 		return strings.SplitN(a, " ; ", 2)[0] == strings.SplitN(b, " ; ", 2)[0]
 	case strings.HasPrefix(a, "~|"):
 		a = strings.TrimPrefix(a, "~|")
-		return callsRe.ReplaceAllString(a, "calls=~") == callsRe.ReplaceAllString(b, "calls=~")
+		return callsRe.ReplaceAllString(a, "calls=~ closed=") == callsRe.ReplaceAllString(b, "calls=~ closed=")
 	}
 	return a == b
 }
